@@ -401,13 +401,15 @@ impl CdnClient {
         endpoint: &CdnEndpoint,
         archive_key: &str,
     ) -> Result<Vec<u8>> {
+        let (first, second) = key_directories(archive_key)?;
+
         // Build cache key for index file
         // Always use path field for ALL game content
         let cache_key = format!(
             "cdn/{}/data/{}/{}/{}.index",
             normalize_cdn_path(&endpoint.path),
-            &archive_key[..2],
-            &archive_key[2..4],
+            first,
+            second,
             archive_key
         );
 
@@ -423,12 +425,7 @@ impl CdnClient {
         let base_path = normalize_cdn_path(&endpoint.path);
         let url = format!(
             "{}://{}/{}/data/{}/{}/{}.index",
-            scheme,
-            endpoint.host,
-            base_path,
-            &archive_key[..2],
-            &archive_key[2..4],
-            archive_key
+            scheme, endpoint.host, base_path, first, second, archive_key
         );
 
         // Download with retry logic
@@ -481,16 +478,12 @@ impl CdnClient {
         endpoint: &CdnEndpoint,
         archive_key: &str,
     ) -> Result<Option<u64>> {
+        let (first, second) = key_directories(archive_key)?;
         let scheme = endpoint.scheme.as_deref().unwrap_or("https");
         let base_path = normalize_cdn_path(&endpoint.path);
         let url = format!(
             "{}://{}/{}/data/{}/{}/{}.index",
-            scheme,
-            endpoint.host,
-            base_path,
-            &archive_key[..2],
-            &archive_key[2..4],
-            archive_key
+            scheme, endpoint.host, base_path, first, second, archive_key
         );
 
         let response = self.http_client.inner().head(&url).send().await?;
